@@ -30,6 +30,7 @@ type Obligation struct {
 
 // Exec is the symbolic execution of one verification target.
 type Exec struct {
+	atCallSeen map[*Clause]int
 	g         *Gen
 	w         *World
 	obls      []*Obligation
